@@ -569,7 +569,31 @@ func gmMeta(r *rng, key string) []byte {
 	case "DVID":
 		return klv(key, 'L', 4, 1, beInts(4, int64(1+r.intn(9))))
 	default:
-		v := pick(r, []string{"Accelerometer", "m/s\xb2", "deg", "GPS (Lat., Long., Alt., 2D speed, 3D speed)", "x", "Camera" + fmt.Sprint(r.intn(9))})
+		if r.chance(1, 3) {
+			// a list of strings (one per channel): fixed-size, NUL-padded entries, Latin-1 unit bytes
+			pool := []string{"m/s\xb2", "\xb0C", "\xb5T", "m\xb3/s", "rad/s", "deg", "m", "m/s", "", "\xb0", "a\x00b"}
+			n := 2 + r.intn(4)
+			size := 1 + r.intn(6)
+			var items []string
+			for k := 0; k < n; k++ {
+				it := pick(r, pool)
+				if len(it) > size {
+					size = len(it)
+				}
+				items = append(items, it)
+			}
+			if r.chance(1, 3) {
+				size++ // every entry padded
+			}
+			var payload []byte
+			for _, it := range items {
+				e := make([]byte, size)
+				copy(e, it)
+				payload = append(payload, e...)
+			}
+			return klv(key, 'c', size, n, payload)
+		}
+		v := pick(r, []string{"Accelerometer", "m/s\xb2", "deg", "GPS (Lat., Long., Alt., 2D speed, 3D speed)", "x", "Camera" + fmt.Sprint(r.intn(9)), "\xb0/s", "\xb5T"})
 		return klv(key, 'c', 1, len(v), []byte(v))
 	}
 }
